@@ -66,8 +66,9 @@ func (e *rangeEngine) tableSites() []tableSite {
 	return out
 }
 
-func r08_3(c *Ctx, r *Report) {
-	const rule = "R08.3"
+func r08_3(c *Ctx, r *Report) { tableIndexRule(c, r, "R08.3", nil, 150) }
+
+func tableIndexRule(c *Ctx, r *Report, rule string, pick func(fn *ssa.Function) bool, floor int) {
 	r.rule(rule, "Table index safety. For every computed index (and slice bound) into a package-level table that is never written after init: index in [0, len), and in [1, len) when element 0 of the table is the empty sentinel of a 1-based vocabulary and the index is not a search-loop counter. Decided by the interval analysis E3 (field invariants from constructor exits, loop unrolling, branch refinement); each site is PROVEN, PROVEN-UNDER(named axioms) or UNPROVEN, and UNPROVEN fails.")
 	e := c.ranges()
 	lemmas, _ := c.scratch["lemmas"].(lemmaSet)
@@ -76,6 +77,9 @@ func r08_3(c *Ctx, r *Report) {
 	type siteKey struct{ fn, table, expr string }
 	seenKey := map[string]int{}
 	for _, s := range sites {
+		if pick != nil && !pick(s.fn) {
+			continue
+		}
 		ln, ok := e.tabLen[s.table]
 		if e.mutable[s.table] {
 			continue // mutable state (holiday tables) is handled by C14
@@ -148,8 +152,8 @@ func r08_3(c *Ctx, r *Report) {
 		}
 		r.bad(rule, construct, pos, why).Class = "UNPROVEN"
 	}
-	r.note("R08.3: %d table sites (%d with constant index), %d range-analysis rounds", len(sites), nconst, e.rounds)
-	r.floor(rule, 150)
+	r.note("%s: %d table sites in the library (%d with constant index), %d function analyses in the range fixpoint", rule, len(sites), nconst, e.rounds)
+	r.floor(rule, floor)
 }
 
 func uniq(seen map[string]int, k string) string {
